@@ -274,7 +274,8 @@ type Outcome struct {
 	Undecided string
 	Asked     []string // atoms the world was asked (for diagnostics)
 	CutBlock  *ssa.BasicBlock
-	Path      []int // indices of the region function's blocks, in execution order (after the prologue)
+	Path      []int             // indices of the region function's blocks, in execution order (after the prologue)
+	Env       map[string]string // final value of every phi of the region function, by source name
 }
 
 type Run struct {
@@ -288,6 +289,7 @@ type Run struct {
 	fresh     int
 	entered   bool
 	mainWorld World
+	topFrame  *frame
 }
 
 type frame struct {
@@ -369,6 +371,7 @@ func Interpret(reg *Region, w World) (out *Outcome) {
 		reg.Prepare(r)
 	}
 	fr := &frame{fn: reg.Fn, env: map[ssa.Value]Val{}}
+	r.topFrame = fr
 	for _, p := range reg.Fn.Params {
 		if v, ok := reg.Params[p.Name()]; ok {
 			fr.env[p] = v
@@ -390,6 +393,14 @@ func Interpret(reg *Region, w World) (out *Outcome) {
 
 func (r *Run) finish() {
 	out := r.out
+	if r.topFrame != nil {
+		out.Env = map[string]string{}
+		for v, val := range r.topFrame.env {
+			if phi, ok := v.(*ssa.Phi); ok && phi.Comment != "" {
+				out.Env[phi.Comment] = render(val)
+			}
+		}
+	}
 	r.reg.lastObjs = map[string]*Obj{}
 	for _, o := range r.objs {
 		r.reg.lastObjs[o.Name] = o
@@ -806,6 +817,15 @@ func (r *Run) step(fr *frame, in ssa.Instruction) {
 			}
 		} else {
 			fr.env[x] = v
+		}
+	case *ssa.Range:
+		fr.env[x] = VOpq{"iter(" + render(r.val(fr, x.X)) + ")"}
+	case *ssa.Next:
+		it := render(r.val(fr, x.Iter))
+		if v, ok := r.reg.Extern["next:"+it]; ok {
+			fr.env[x] = v
+		} else {
+			fr.env[x] = VTuple{VAtom{Key: "more " + it}, VOpq{"key " + it}, VOpq{"val " + it}}
 		}
 	case *ssa.MapUpdate:
 		r.Event("mapupdate %s[%s] = %s", render(r.val(fr, x.Map)), render(r.val(fr, x.Key)), render(r.val(fr, x.Value)))
